@@ -52,10 +52,18 @@ CentreSum(cp) == [x \in 1..2 |-> EdgePoint(cp, 0)[x] + EdgePoint(cp, 1)[x] + Edg
 CtrlOf(cp) == << << cp[1], EdgePoint(cp, 0), cp[2] >>,
                  << EdgePoint(cp, 2), [x \in 1..2 |-> CentreSum(cp)[x] \div 4], EdgePoint(cp, 3) >>,
                  << cp[3], EdgePoint(cp, 1), cp[4] >> >>
+\* the control points of the same cell WITHOUT charts: all nodes are bilinear images of the equispaced reference nodes, so the
+\* iso-parametric map of every degree (1, 2, 3) without charts IS the bilinear map of the four corners
+StraightCtrl(cp) ==
+  LET m(e) == Mid(cp, e)
+      cs == [x \in 1..2 |-> m(0)[x] + m(1)[x] + m(2)[x] + m(3)[x]]
+  IN << << cp[1], m(0), cp[2] >>, << m(2), [x \in 1..2 |-> cs[x] \div 4], m(3) >>, << cp[3], m(1), cp[4] >> >>
+StraightExact(cp) == \A x \in 1..2 : (Mid(cp, 0)[x] + Mid(cp, 1)[x] + Mid(cp, 2)[x] + Mid(cp, 3)[x]) % 4 = 0
 \* side conditions of the exact domain (invariant: the catalogue stays inside it)
 ExactDomainOf(cp) ==
   /\ \A e \in 0..3 : MidExact(cp, e) /\ (Curved(cp, e) => ProjectExact(Mid(cp, e)))
   /\ \A x \in 1..2 : CentreSum(cp)[x] % 4 = 0
+  /\ StraightExact(cp)
 ExactDomain == ExactDomainOf(CellP)
 
 \* 1-D Lagrange-2 factors padded to the exponent box 0..3 (the determinant has degree 3 per variable)
@@ -72,15 +80,19 @@ Lattice == [1..2 -> -4..4]
 LatS == 4
 LatD == 4
 
-\* all derived data of one cell, evaluated once
-CellData(cp) ==
-  LET ctrl == TLCEval(CtrlOf(cp))
+\* all derived data of one cell for given control points, evaluated once
+CellDataOf(ctrl0) ==
+  LET ctrl == ctrl0
       Fk == TLCEval([k \in 1..2 |-> MapPoly(ctrl, k)])
       Jk == TLCEval([k \in 1..2 |-> TLCEval([a \in 1..2 |-> PDiff(Fk[k], a, BoxQ)])])
       Hk == TLCEval([k \in 1..2 |-> TLCEval([a \in 1..2 |-> TLCEval([b \in 1..2 |-> PDiff(Jk[k][a], b, BoxQ)])])])
       det == PSub(PMul(Jk[1][1], Jk[2][2]), PMul(Jk[1][2], Jk[2][1]))          \* over 16
   IN [ctrl |-> ctrl, F |-> Fk, J |-> Jk, H |-> Hk, det |-> det,
       volnum |-> MapThenSumSet(LAMBDA e : det[e] * I3(e[1]) * I3(e[2]), DOMAIN det)]          \* volume = volnum / 144
+
+CellData(cp) == CellDataOf(TLCEval(CtrlOf(cp)))
+\* the bilinear map of the four corners (= the iso-parametric map of any degree without charts)
+BilinearData(cp) == CellDataOf(TLCEval(StraightCtrl(cp)))
 
 Emit ==
   LET cp == TLCEval(CellP)
@@ -89,10 +101,16 @@ Emit ==
                 x |-> [k \in 1..2 |-> PEval(C.F[k], n, LatS, LatD)],
                 j |-> [k \in 1..2 |-> [a \in 1..2 |-> PEval(C.J[k][a], n, LatS, LatD)]],
                 h |-> [k \in 1..2 |-> [a \in 1..2 |-> [b \in 1..2 |-> PEval(C.H[k][a][b], n, LatS, LatD)]]]]
+      B == TLCEval(BilinearData(cp))
+      bl(n) == [n |-> n,
+                x |-> [k \in 1..2 |-> PEval(B.F[k], n, LatS, LatD)],
+                j |-> [k \in 1..2 |-> [a \in 1..2 |-> PEval(B.J[k][a], n, LatS, LatD)]],
+                h |-> [k \in 1..2 |-> [a \in 1..2 |-> [b \in 1..2 |-> PEval(B.H[k][a][b], n, LatS, LatD)]]]]
       \* the map preserves orientation at every lattice point (a valid cell); otherwise nothing is emitted and Valid fails
       valid == \A n \in Lattice : PEval(C.det, n, LatS, 6) > 0
   IN /\ valid
      /\ PrintT(ToJson([kind |-> "iso", cell |-> cur[1], P |-> cp, radius |-> Radius, curved |-> SetToSeq({e \in 0..3 : Curved(cp, e)}),
                        cs |-> CoordShift, ctrl |-> C.ctrl, S |-> LatS, den |-> 4 * IPow(LatS, LatD), volnum |-> C.volnum, volden |-> 144,
-                       pts |-> SetToSeq({at(n) : n \in Lattice})]))
+                       pts |-> SetToSeq({at(n) : n \in Lattice}),
+                       blvolnum |-> B.volnum, blpts |-> SetToSeq({bl(n) : n \in Lattice})]))
 =============================================================================
